@@ -72,11 +72,13 @@ var shared = map[string][]sharedRule{
 		{[]func(*core.Ctx){C11}, []string{"C11.R5"}, "C10.R17", 1, "the typedef-cycle search uses path discipline (decided by C11.R5): a DAG of typedefs — valid IDL — is not rejected as a cycle"},
 	},
 	"C14": {
+		{[]func(*core.Ctx){C03}, []string{"C03.R7"}, "C14.R17", 2, "a request larger than one buffered read is still one request (decided by C03.R7): the framed reader's remaining-frame counter decreases by the bytes actually read, so the next request on the connection starts at a frame boundary"},
 		{[]func(*core.Ctx){C01}, []string{"C01.R9"}, "C14.R15", 4, "every op id a client may send is answered (decided by C01.R9): op ids are read as unsigned 64-bit decimal text everywhere — a server that parses them as a signed int refuses valid requests with ids from 2^63 and never replies"},
 		{[]func(*core.Ctx){C12}, []string{"C12.R1", "C12.R10"}, "C14.R14", 4, "the RESPONSE_TOO_LARGE reply is written into an emptied buffer (decided by C12.R1/R10): every appending method of the bounded buffer resets on rejection, otherwise the truncated reply and the exception go out as one corrupt frame"},
 		{[]func(*core.Ctx){C03, C16}, []string{"C03.R9", "C16.R6"}, "C14.R13", 2, "the reply is built from this invocation's own results (decided by C03.R9/C16.R6): the invocation handler behind every generated processor function keeps no storage across invocations, so two overlapping requests for one method cannot answer with each other's return value"},
 	},
 	"C16": {
+		{[]func(*core.Ctx){C09}, []string{"C09.R1", "C09.R2"}, "C16.R14", 6, "headers a middleware adds travel with the call in both directions (decided by C09.R1/R2): every reply — error replies included — is written with the response headers of the request's context, and the server copies every received request header except _opid into the context it builds"},
 		{[]func(*core.Ctx){C12}, []string{"C12.R4"}, "C16.R13", 4, "the outcome the caller's middleware observes is the kind the server reported (decided by C12.R4): only the RESPONSE_TOO_LARGE application exception is turned into that transport exception"},
 		{[]func(*core.Ctx){C09}, []string{"C09.R3"}, "C16.R12", 3, "what a server middleware sets on the response headers is what the client middleware observes after next (decided by C09.R3): every reply header except _opid is merged into the caller's context whatever it already holds"},
 		{[]func(*core.Ctx){C03}, []string{"C03.R3"}, "C16.R10", 4, "the outcome of the call comes back through the middleware chain (decided by C03.R3): every declared exception is emitted on every non-oneway path of the generated client/processor"},
